@@ -299,7 +299,7 @@ def unparsable_constructs(P, problem):
 def constructs_of(P):
     """unparsable_constructs of P, or None when P cannot be built"""
     try:
-        with time_limit(30):
+        with time_limit(300):
             return unparsable_constructs(P, upj.build(P))
     except ImplTimeout:
         return None
@@ -409,13 +409,16 @@ def _read(text, fresh_env):
     return ANMLReader().parse_problem_string(text, "reread")
 
 
-def round_trip(P, limit, fresh_env=False):
-    """write P, read it back, project and rename back.  Exceptions are observations."""
+def round_trip(P, limit, want_fresh_env=False, force_env=None):
+    """write P, read it back, project and rename back.  Exceptions are observations.
+    want_fresh_env: read with ANMLReader(Environment()) -- honoured only when P is free of the unparsable construct
+    classes (unambiguous signature); force_env (replay) overrides."""
     R = {"wexc": "none", "wmsg": "", "text": "", "rexc": "none", "rmsg": "", "rwhere": "", "B": None, "miss": [], "coll": [],
-         "skip": ""}
+         "skip": "", "constructs": [], "fresh_env": False}
     try:
         with time_limit(limit):
             problem = upj.build(P)
+            R["constructs"] = unparsable_constructs(P, problem)
     except ImplTimeout:
         R["skip"] = "build-timeout"
         return R, None
@@ -423,6 +426,8 @@ def round_trip(P, limit, fresh_env=False):
         R["skip"] = "build:" + _exc(ex)
         R["detail"] = _msg(ex)
         return R, None
+    fresh_env = (want_fresh_env and not R["constructs"]) if force_env is None else bool(force_env)
+    R["fresh_env"] = fresh_env
     try:
         with time_limit(limit):
             text, table = write_with_table(problem)
@@ -609,11 +614,8 @@ def worker(job):
     rec = {"cid": cid, "slice": slice_, "P": P, "skip": "", "safe": 0, "R": None, "plans": [], "constructs": [], "fresh_env": False}
     try:
         temporal = slice_ in TEMPORAL
-        cs = constructs_of(P)
-        rec["constructs"] = cs or []
-        # ANMLReader(env) with a fresh Environment: only on problems free of unparsable constructs (unambiguous signature)
-        rec["fresh_env"] = (cs == [] and cid % 8 == 7) if force_env is None else bool(force_env)
-        R, problem = round_trip(P, limit, fresh_env=rec["fresh_env"])
+        R, problem = round_trip(P, limit, want_fresh_env=(cid % 8 == 7), force_env=force_env)
+        rec["constructs"], rec["fresh_env"] = R["constructs"], R["fresh_env"]
         if R["skip"]:
             rec["skip"] = R["skip"]
             rec["detail"] = R.get("detail", "")
